@@ -74,6 +74,7 @@ class PinAnalysis(Analysis):
         self.params = [k for k in cfg.fn.kids if k.k == "ParmVarDecl"]
         self.reports = []                   # (rule, node, st, pathstr, detail)
         self.touched_unpinned_params = set()
+        self.released_params = set()
         self._seen_reports = set()
         self.fresh_arrays = self._fresh_arrays()
 
@@ -219,6 +220,14 @@ class PinAnalysis(Analysis):
             if is_lifecycle(self.name):
                 return st
             pname = oid[2:].split("@")[0]
+            if held:
+                self.report("GHOST-READ", node, st, "%s->%s" % (path(base), m.n),
+                            "field %s of %s read/written after the pin this "
+                            "function took was dropped by a callee that "
+                            "activates and releases the same object itself "
+                            "(the sticky state is not a counter) and Python "
+                            "code may have run since" % (m.n, path(base)))
+                return st
             if oid.endswith("@0") and pname in [p.n for p in self.params] \
                     and self.name not in self.ctx["entries"]:
                 self.touched_unpinned_params.add(pname)
@@ -267,6 +276,22 @@ class PinAnalysis(Analysis):
                                     "ghost" % (path(a), g))
             if g in self.ctx["runs_py"]:
                 st = self._degrade(st)
+            # the callee brackets one of its parameters itself (activate ...
+            # release): the sticky bit is not a counter, so its release also
+            # drops the pin this frame holds on the same object.  The object
+            # stays valid until Python code runs again (strength W); Python
+            # run by the callee *inside* its own bracket is harmless, which is
+            # the order assumed here (release is the callee's last act).
+            rels = self.ctx.get("releases", {}).get(g, set())
+            for i, a in enumerate(args):
+                if i >= len(gparams) or gparams[i] not in rels:
+                    continue
+                st, oid = self.objid(st, a, create=False)
+                if oid is None:
+                    continue
+                held, s = self.ostate(st, oid)
+                if s == "P":
+                    st = sset(st, "o:" + oid, (held, "W"))
         elif c[0] == "fn":
             if c[1] in MAY_RUN_PY:
                 st = self._degrade(st)
@@ -348,6 +373,10 @@ class PinAnalysis(Analysis):
                                         "release of %s, which this function did "
                                         "not pin on this path" % path(x))
                         st = sset(st, "o:" + oid, (False, "W" if s in ("P", "W", "E", "F", "N") else s))
+                        pname = oid[2:].split("@")[0]
+                        if oid.startswith("p:") and oid.endswith("@0") and \
+                                pname in [p.n for p in self.params]:
+                            self.released_params.add(pname)
                 return [st]
             if kind == "ACQ":
                 # effects are applied on the edges
@@ -546,6 +575,9 @@ def analyse_tu(tu):
         "const_ret": const_returns(tu),
     }
     cfgs = {name: CFG(tu.funcs[name]) for name in tu.order}
+    # which functions release (a pin on) the object one of their own
+    # parameters denotes on entry: filled in by the fixpoint below
+    ctx["releases"] = {}
     # fixpoint on needs-pinned summaries
     for _round in range(12):
         changed = False
@@ -559,6 +591,11 @@ def analyse_tu(tu):
             old = ctx["needs"].get(name, set())
             if not new <= old:
                 ctx["needs"][name] = old | new
+                changed = True
+            newr = an.released_params
+            oldr = ctx["releases"].get(name, set())
+            if not newr <= oldr:
+                ctx["releases"][name] = oldr | newr
                 changed = True
         if not changed:
             break
